@@ -173,7 +173,7 @@ CFI_UNSUPPORTED = ("vecRet", "vecRetD", "deep", "extraVecD", "charArrLen", "strF
 NEEDS_CLASS = {"ptSum": "Pt", "ptOut": "Pt", "ptScale": "Pt", "arrTotal": "Arr", "makeItem": "Item", "borrowItem": "Item", "defaultItem": "Item", "copyItem": "Item", "useItem": "Item",
                "sumItems": "Item", "passItem": "Item", "refItem": "Item", "makeBox": "Box"}
 # declarations that (as documented) hand nothing to the caller that needs releasing
-NEUTRAL = ["charArrTwo", "arrInOut", "strRef", "strLib", "strIn", "charOut", "charRet", "charInout", "arrLib", "arrSum", "arrFillOut",
+NEUTRAL = ["arrSumD", "charArrTwo", "arrInOut", "strRef", "strLib", "strIn", "charOut", "charRet", "charInout", "arrLib", "arrSum", "arrFillOut",
            "charGrow", "charArrLen", "arrWeights", "charRetLen", "charRetNull", "strPtrIn", "vecSum", "vecDot"]
 
 
